@@ -157,18 +157,17 @@ func (a *Slice) M__eq__(other Object) (Object, error) {
 		return NotImplemented, nil
 	}
 
-	if a.Start != b.Start {
-		return False, nil
+	// slices are equal when their members are equal (as Python
+	// values: they may be of any type, also ones Go cannot compare)
+	for _, pair := range [3][2]Object{{a.Start, b.Start}, {a.Stop, b.Stop}, {a.Step, b.Step}} {
+		eq, err := Eq(pair[0], pair[1])
+		if err != nil {
+			return nil, err
+		}
+		if eq != True {
+			return False, nil
+		}
 	}
-
-	if a.Stop != b.Stop {
-		return False, nil
-	}
-
-	if a.Step != b.Step {
-		return False, nil
-	}
-
 	return True, nil
 }
 
